@@ -276,17 +276,17 @@ func properties() map[string]*propDef {
 		ID: "C06",
 		Items: func(tier string, seed int) []item {
 			cfgs := [][]int{{0, 0, 0, -1, 0}, {1, 1, 1, -1, 0}, {1, 1, 1, 0, 0}, {1, 1, 1, 1, 0}, {1, 1, 1, 2, 0}, {2, 0, 1, -1, 1}, {1, 1, 1, -1, 1}, {0, 1, 1, -1, 1},
-				{1, 1, 1, -1, 2}, {2, 1, 0, 0, 2}, {0, 0, 0, -1, 2}, {2, 2, 2, -1, 0}, {2, 1, 2, 1, 0}, {3, 1, 0, -1, 0}, {3, 0, 1, -1, 0}}
+				{1, 1, 1, -1, 2}, {2, 1, 0, 0, 2}, {0, 0, 0, -1, 2}, {2, 2, 2, -1, 0}, {2, 1, 2, 1, 0}, {3, 1, 0, -1, 0}, {3, 0, 1, -1, 0}, {1, 1, 1, -1, 3}, {2, 0, 0, 0, 3}}
 			if tier == "thorough" {
 				cfgs = append(cfgs, []int{2, 2, 2, 0, 0}, []int{2, 2, 2, 3, 0}, []int{2, 2, 2, 5, 0}, []int{2, 2, 2, -1, 1}, []int{2, 2, 2, -1, 2}, []int{3, 3, 3, -1, 0})
 			}
 			var out []item
 			for _, c := range cfgs {
-				out = append(out, item{Harness: "H_C06", Cfg: c, Label: "container/service/route filter counts, index of the middleware filter (-1 none), mode (0 routed, 1 routing failure, 2 HandleWithFilter via ServeHTTP)"})
+				out = append(out, item{Harness: "H_C06", Cfg: c, Label: "container/service/route filter counts, index of the middleware filter (-1 none), mode (0 routed, 1 routing failure, 2 HandleWithFilter via ServeHTTP, 3 routing failure reported as a plain error by a custom RouteSelector)"})
 			}
 			return out
 		},
-		Bounds:         map[string]interface{}{"filters_per_level": "0..2 (thorough 3)", "behaviour_bits_per_filter": "stop + (replace pair | set attribute)", "sequence": "optional earlier all-pass request"},
+		Bounds:         map[string]interface{}{"filters_per_level": "0..2 (thorough 3)", "behaviour_bits_per_filter": "stop + (replace pair | set attribute)", "sequence": "optional earlier all-pass request, to the same route or to a sibling route (same method and path, told apart by a condition) with its own route filter"},
 		Assumptions:    append([]string{"ServeMux is modelled by the Go 1.21 matching rules (go.mod says go 1.13)"}, commonAssumptions...),
 		Rule:           "enumerated filter counts per level x middleware position x entry mode; every filter's pass-on/replace/attribute behaviour is a symbolic bit",
 		RequiredCovers: []string{"handler-ran", "routing-failure", "after-warmup"},
